@@ -1,6 +1,8 @@
 """Hypothesis strategies for CP model descriptions (format: vf/oracles/cp_sem.py)."""
 from __future__ import annotations
 
+import os
+
 from hypothesis import strategies as st
 
 NAMES = ["a", "b", "c", "d", "e", "f"]
@@ -70,7 +72,9 @@ def _subset(draw, names, kmin, kmax):
 @st.composite
 def model(draw, for_tv=False):
     """for_tv=True keeps the product of domains small enough to enumerate every assignment (C06)."""
-    flavour = draw(st.sampled_from(["dfs-native", "dfs-native", "needle", "needle", "sums", "circuit", "no_overlap", "cumulative", "mixed"]))
+    flavour = draw(st.sampled_from(["dfs-native", "dfs-native", "needle", "needle", "needle", "sums", "circuit", "no_overlap", "cumulative", "mixed"]))
+    if os.environ.get("CP_FLAVOUR"):  # experiments only
+        flavour = os.environ["CP_FLAVOUR"]
     cons = []
     if flavour == "needle":
         # a hidden target assignment t; every constraint holds at t, most are disequalities that cut away other
